@@ -525,6 +525,20 @@ def hexToCompact (hex : List Nib) : List UInt8 :=
     | [] => []
   else UInt8.ofNat flag :: packNibbles h
 
+/-- nibbles of a byte string, two per byte (`keybytesToHex` without its terminator) -/
+def unpackNibbles : List UInt8 → List Nib
+  | [] => []
+  | b :: r => Fin.ofNat 17 (b.toNat / 16) :: Fin.ofNat 17 (b.toNat % 16) :: unpackNibbles r
+
+/-- `compactToHex`: the flag nibble says terminator (`>= 2`) and odd length (`& 1`); `none` = the
+    `base[0]` index panic on an empty input -/
+def compactToHex (c : List UInt8) : Option (List Nib) :=
+  match unpackNibbles c with
+  | [] => none
+  | f :: rest =>
+    let body := if f.val % 2 = 1 then rest else rest.drop 1
+    some (if f.val ≥ 2 then body ++ [16] else body)
+
 def toItem : CNode → Rlp.Item
   | .empty => .bytes []
   | .value v => .bytes (v.map UInt8.ofNat)
